@@ -39,6 +39,50 @@ def utc_name_cases():
     return fails
 
 
+def day_change_cases(ctx):
+    """one create under a simulated process clock in which every reading of the clock shows a later second, started so
+    that UTC midnight falls between the k-th and the (k+1)-th reading, for EVERY k of the run: the time in the name of
+    the new manifest has to be one of the instants the clock showed (a name put together from two readings carries a
+    time that no clock ever showed - a day off around midnight)."""
+    import os, json, re, calendar, time, subprocess
+    from concurrent.futures import ThreadPoolExecutor
+    from .. import rt
+
+    fails = []
+    midnight = calendar.timegm((2021, 3, 1, 0, 0, 0))
+    script = os.path.join(rt.VERIF, "harness", "simclock_case.py")
+
+    def one(k):
+        with rt.tempdir("c06d_") as d:
+            root = os.path.join(d, "Reel")
+            rt.mk(root, {"a.txt": "a", "s/b.txt": "b"})
+            start = midnight - k - 0.5  # reading number j shows start + j
+            pr = subprocess.run(["/venv/bin/python", script, rt.REPO, root, str(start), "1"], capture_output=True, text=True, timeout=120, env=dict(os.environ, TZ="UTC"))
+            try:
+                return k, json.loads(pr.stdout.strip().splitlines()[-1])
+            except Exception:
+                return k, {"error": (pr.stderr or pr.stdout)[-300:]}
+
+    _, first = one(0)
+    if "error" in first:
+        return [{"what": f"create under the simulated clock failed: {first['error']}", "replay": {"case": "day_change"}}]
+    n = len(first["shown"])
+    ks = list(range(0, n + 1)) if ctx.thorough or n <= 60 else list(range(0, n + 1, max(1, n // 60)))
+    with ThreadPoolExecutor(8) as ex:
+        for k, r in ex.map(one, ks):
+            if "error" in r:
+                fails.append({"what": f"create under the simulated clock (midnight after reading {k}) failed: {r['error']}", "replay": {"case": "day_change", "k": k}})
+                continue
+            shown = {time.strftime("%Y-%m-%d_%H%M%S", time.gmtime(t)) for t in r["shown"]}
+            for nm in r["names"]:
+                m = re.match(r"^\d{4,}_.*_(\d{4}-\d{2}-\d{2}_\d{6})Z\.mhl$", nm)
+                if r["exit"] != 0 or not m or m.group(1) not in shown:
+                    fails.append({"what": f"create (exit {r['exit']}) with UTC midnight between clock readings {k} and {k + 1} names its manifest {nm}; the clock showed {min(shown)} .. {max(shown)} during the run", "replay": {"case": "day_change", "k": k, "name": nm}})
+            if len(r["names"]) != 1:
+                fails.append({"what": f"create under the simulated clock wrote manifests {r['names']}", "replay": {"case": "day_change", "k": k}})
+    return fails
+
+
 def write_order_cases(ctx):
     """the order in which create writes (per history: the manifest through its temporary, then the chain through its
     temporary; nested histories before their parents) is the order the model's commit and crash theorems assume: the
@@ -119,7 +163,7 @@ def run(ctx):
            "ops": [{"op": "create", "at": "e\u0301", "h": ["md5"], "now": "2026-03-01 12:00:00"}, {"op": "create", "at": "", "h": ["md5"], "now": "2026-03-01 12:00:01"},
                    {"op": "create", "at": "", "h": ["c4"], "now": "2026-03-01 12:00:02"}, {"op": "verify", "at": ""}, {"op": "info", "at": ""}]}
     scs.insert(0, nfd)
-    return _scn.run_scn(ctx, scs, M.m_c06, extra_fails=utc_name_cases() + interrupted_runs(ctx), extra_diffs=write_order_cases(ctx), assumptions=["the clock is the injected one (freezegun); several runs share a clock second on purpose"])
+    return _scn.run_scn(ctx, scs, M.m_c06, extra_fails=utc_name_cases() + interrupted_runs(ctx) + day_change_cases(ctx), extra_diffs=write_order_cases(ctx), assumptions=["the clock is the injected one (freezegun); several runs share a clock second on purpose"])
 
 
 def replay(ctx, path):
